@@ -28,26 +28,19 @@ def storage_bits(v):
     return v if isinstance(v, BV) else None
 
 
-def run(ctx, rep):
-    prog = ctx.program("default")
-    rep.configs.append(getattr(ctx, "alias", "default"))
-    be = BitEval(prog)
-    colours = []
-    for i in prog.impls.values():
-        if i.get("trait") == PIXELCOLOR and isinstance(i["self_ty"], dict) and "adt" in i["self_ty"]:
-            raw = i["types"].get("Raw")
-            colours.append((i["self_ty"]["adt"], raw.get("adt") if isinstance(raw, dict) else None))
-    rep.floor("C12", "colour types", len(colours), 14)
+def raw_info(prog):
     rawinfo = {}
     for i in prog.impls.values():
         if i.get("trait") == RAWDATA and isinstance(i["self_ty"], dict) and "adt" in i["self_ty"]:
             rawinfo[i["self_ty"]["adt"]] = dict(bpp=i["consts"]["BITS_PER_PIXEL"].get("v"), mask=i["consts"]["MASK"].get("v"), impl=i)
-    gen_storage = prog.by_path.get("<C as " + PC + "IntoStorage>::into_storage", [None])[0]
-    gen_be = prog.by_path.get("<C as " + PC + "raw::to_bytes::ToBytes>::to_be_bytes", [None])[0]
-    gen_le = prog.by_path.get("<C as " + PC + "raw::to_bytes::ToBytes>::to_le_bytes", [None])[0]
-    gen_ne = prog.by_path.get("<C as " + PC + "raw::to_bytes::ToBytes>::to_ne_bytes", [None])[0]
-    rep.check(all(x is not None for x in (gen_storage, gen_be, gen_le, gen_ne)), "O6", "anchors", "generic IntoStorage/ToBytes impls not found", status="undecided")
+    return rawinfo
 
+
+def raw_invariant(prog, rep, be, rawinfo):
+    """O0 — the class invariant of the raw types (bits at and above BITS_PER_PIXEL are zero) holds by construction.
+    Shared with C10 / C11: the framebuffer and the sub-byte stores OR `into_inner() << shift` into a byte without
+    masking, so they rely on it."""
+    from mirq.bits import WIDTHS
     # ---- O0: raw types are masked by construction ---------------------------------------------------------
     for rty_, info in sorted(rawinfo.items()):
         rn = rty_.split("::")[-1]
@@ -56,7 +49,6 @@ def run(ctx, rep):
         nw = prog.method1(rty_, "new", None)
         adt = prog.adts[rty_]
         w = adt["variants"][0]["fields"][0]["ty"]
-        from mirq.bits import WIDTHS
         out = storage_bits(be.call_fn(nw, [BV.inp("v", WIDTHS[w])]))
         ok = out is not None and all(out.bit(j) == (("in", "v", j) if j < info["bpp"] else 0) for j in range(WIDTHS[w]))
         rep.check(ok, "O0", rn + "::new", "%s::new must keep exactly the low %d bits; got %r" % (rn, info["bpp"], out), at=nw.span, fn=nw.path)
@@ -91,7 +83,70 @@ def run(ctx, rep):
             bpp = rinfo[0]["bpp"]
             if not (isinstance(v, BV) and all(v.bit(j) == 0 for j in range(bpp, max(len(v.bits), v.width or 0)))):
                 bad.append("%s hands new_unmasked a value whose bits >= %d are not provably zero: %r" % (f.key(), bpp, v))
+    # who constructs a raw value directly: the tuple struct can be built only inside the pixelcolor::raw module; every
+    # aggregate of a raw type outside `new` (masks, checked above) and `new_unmasked` (its callers are checked here) must
+    # store a value whose bits at and above the type's width are provably zero — `Self(value as u8)` in a generic
+    # constructor such as `from_u32` hands unmasked bits to every reader that relies on the class invariant
+    n_agg = 0
+    bad2 = []
+    for f in sorted(prog.fns.values(), key=lambda f: f.id):
+        if not f.body or "::tests::" in f.id:
+            continue
+        org = None
+        for bi, b in enumerate(f.body["blocks"]):
+            for si, st in enumerate(b["s"]):
+                if not (st["k"] == "assign" and st["rv"].get("k") == "agg"):
+                    continue
+                adt_ = st["rv"].get("adt")
+                if adt_ not in rawinfo or rawinfo[adt_]["bpp"] in (None, 0):
+                    continue
+                n_agg += 1
+                if f.path in (adt_ + "::new", adt_ + "::new_unmasked"):
+                    continue
+                bpp = rawinfo[adt_]["bpp"]
+                wdt = WIDTHS[prog.adts[adt_]["variants"][0]["fields"][0]["ty"]]
+                if bpp >= wdt:
+                    continue                   # every value of the storage type is a valid raw value
+                try:
+                    org = org or _Org(f)
+                    arg = org.operand(st["rv"]["ops"][0], bi, si)
+                    ins = f.d.get("inputs") or [f.body["locals"][i + 1]["ty"] for i in range(f.body["argc"])]
+                    env = {i + 1: be.input_of(ty_, "a%d" % i) for i, ty_ in enumerate(ins)}
+                    if arg[0] == "call" and arg[1].endswith("::default") and not arg[3]:
+                        v = BV.const(0, wdt)
+                    else:
+                        v = be.eval(arg, env, f)
+                except Exception as e:     # the bit domain cannot follow: not a pass
+                    v = None
+                if not (isinstance(v, BV) and all(v.bit(j) == 0 for j in range(bpp, max(len(v.bits), v.width or 0)))):
+                    bad2.append("%s builds %s directly from a value whose bits >= %d are not provably zero: %r" % (f.key(), adt_.split("::")[-1], bpp, v))
+    rep.floor("O0", "raw value constructions", n_agg, 18)
+    rep.check(not bad2, "O0", "direct-construction", "a raw value built outside new / new_unmasked must be masked: %s" % "; ".join(bad2[:3]))
     rep.check(not bad and n_sites >= 1, "O0", "new_unmasked-callers", "new_unmasked (no masking) may only receive values that are masked already: %s" % "; ".join(bad[:3]))
+
+
+
+def run(ctx, rep):
+    prog = ctx.program("default")
+    rep.configs.append(getattr(ctx, "alias", "default"))
+    be = BitEval(prog)
+    colours = []
+    for i in prog.impls.values():
+        if i.get("trait") == PIXELCOLOR and isinstance(i["self_ty"], dict) and "adt" in i["self_ty"]:
+            raw = i["types"].get("Raw")
+            colours.append((i["self_ty"]["adt"], raw.get("adt") if isinstance(raw, dict) else None))
+    rep.floor("C12", "colour types", len(colours), 14)
+    rawinfo = {}
+    for i in prog.impls.values():
+        if i.get("trait") == RAWDATA and isinstance(i["self_ty"], dict) and "adt" in i["self_ty"]:
+            rawinfo[i["self_ty"]["adt"]] = dict(bpp=i["consts"]["BITS_PER_PIXEL"].get("v"), mask=i["consts"]["MASK"].get("v"), impl=i)
+    gen_storage = prog.by_path.get("<C as " + PC + "IntoStorage>::into_storage", [None])[0]
+    gen_be = prog.by_path.get("<C as " + PC + "raw::to_bytes::ToBytes>::to_be_bytes", [None])[0]
+    gen_le = prog.by_path.get("<C as " + PC + "raw::to_bytes::ToBytes>::to_le_bytes", [None])[0]
+    gen_ne = prog.by_path.get("<C as " + PC + "raw::to_bytes::ToBytes>::to_ne_bytes", [None])[0]
+    rep.check(all(x is not None for x in (gen_storage, gen_be, gen_le, gen_ne)), "O6", "anchors", "generic IntoStorage/ToBytes impls not found", status="undecided")
+
+    raw_invariant(prog, rep, be, rawinfo)
 
     for cty, rty in sorted(colours):
         name = cty.split("::")[-1]
